@@ -188,7 +188,7 @@ def run(repo, res):
         req = parent_body[idx + 1:]
     sends = [c for s in req for c in calls_in(s)
              if isinstance(c.func, ast.Attribute) and c.func.attr in ('send_bytes', 'send')]
-    inloop = [c for c in sends if any(isinstance(p, (ast.For, ast.While)) for p in parents_until(c, close_if))]
+    inloop = [c for c in sends if any(isinstance(p, (ast.For, ast.While)) for p in parents_until(c, loop))]
     res.check('C15-R3', 'one send per request', len(sends) == 1 and not inloop, SERVER,
               sends[0].lineno if sends else close_if.lineno,
               'exactly one reply (send_bytes) must be attempted per non-close request; found %d'
